@@ -77,6 +77,7 @@ func scenarioC05(r *Run) {
 	r.Info["cell"] = cell.String()
 	r.Info["cells_total"] = len(cells)
 	cfg := WorldCfg{}
+	portOnly := false
 	switch cell.Carrier {
 	case "tcp+tls", "wss":
 		cfg.Carrier = cell.Carrier
@@ -109,6 +110,16 @@ func scenarioC05(r *Run) {
 		// the upstream is named by host name or by IP literal; the good certificate covers both
 		cfg.UseHostName = c.Chance(1, 2, "upstream-by-name")
 		r.Info["upstream_by_name"] = cfg.UseHostName
+		if (cfg.Carrier == "tcp" || cfg.Carrier == "tcp+tls") && c.Chance(1, 4, "upstream-by-port-only") {
+			// "tcp://:9000": the upstream has no host part, so there is no name a certificate could be matched
+			// against - a client that verifies (no -k) cannot authenticate anybody and must refuse everybody
+			cfg.UseHostName = false
+			cfg.UsePortOnly = true
+			portOnly = true
+			r.Net.SetRedirect("tcp", fmt.Sprintf("0.0.0.0:%d", CarrierPort(cfg.Carrier)), fmt.Sprintf("%s:%d", ServerIP, CarrierPort(cfg.Carrier)))
+			r.Count("upstreams_without_a_host_part")
+		}
+		r.Info["upstream_by_port_only"] = portOnly
 		if cell.ServerCert == "good" {
 			// "trusted and matching": the certificate names exactly what the upstream URL names
 			if cell.Carrier == "starttls-dns" {
@@ -133,6 +144,9 @@ func scenarioC05(r *Run) {
 	lsn := LsnCfg{Channel: "alpha", Kind: "tcp", Addr: "127.0.0.1:6001"}
 	cfg.Listeners = []LsnCfg{lsn}
 	expect, why := c05expect(cell)
+	if portOnly && !cell.Insecure && expect {
+		expect, why = false, "the upstream has no host part: nothing the certificate could be matched against, and the client verifies"
+	}
 	r.Info["expect"] = map[bool]string{true: "admit", false: "reject"}[expect] + ": " + why
 
 	w, err := BuildWorld(r, cfg)
